@@ -905,10 +905,11 @@ def cover(o, opts):
 def run_symbolic(h, tier="quick", stubs=None):
     """Explore + discharge one harness.  Returns a JSON-able dict."""
     opts = dict(h.opts)
-    loader = extract.Loader(stubs=stubs or opts.get("stubs"))
     holder = {}
 
     def factory(c):
+        # a fresh loader per explored path: contract stubs installed by the harness on one path must not leak into the next
+        loader = extract.Loader(stubs=stubs or opts.get("stubs"))
         vc = SymVC(h, c, loader)
         holder["vc"] = vc
         return vc
